@@ -165,6 +165,8 @@ def emit(modname, cfgid, spec, sp=None, pre='', t_override=None, xf=None, modes=
     t = t_override or build(spec)
     if xf:
         xf(t)
+        for v, mv in zip(spec.variants, t.variants):
+            v['ident'] = mv.name
     body = pre + PRE + render_type(t, sp) + any_fn(t) + variant_index_fn(t) + oracle_impl(spec, t)
     unwind = max(max_len(spec), 12) + 6
     plain = spec.tname is None and spec.tnf is None and all(v['vname'] is None and v['nf'] is None and all(c == 'p' for c in v['fields']) for v in spec.variants)
@@ -305,6 +307,13 @@ def gen_specs(tier, seed):
         specs.append(Spec('struct', False, [dict(kind='tuple', vname=None, nf=None, fields=['p', 'm'])]))
         specs.append(Spec('struct', False, [dict(kind='named', vname=None, nf=None, fields=['r', 'p'])]))
         specs.append(Spec('struct', False, [dict(kind='named', vname=None, nf=None, fields=['p', 'l'])], False))
+        # every builder arm (struct / named variant / tuple variant x named-style with and without a name, tuple-style) with every field code
+        for codes in (['b', 'p'], ['m', 'r'], ['l', 'b']):
+            specs.append(Spec('enum', None, [dict(kind='tuple', vname=False, nf=True, fields=codes), dict(kind='named', vname=False, nf=None, fields=codes[::-1])]))
+            specs.append(Spec('enum', True, [dict(kind='tuple', vname=None, nf=True, fields=codes[::-1]), dict(kind='named', vname='Rv', nf=None, fields=codes)]))
+        specs.append(Spec('struct', False, [dict(kind='tuple', vname=None, nf=None, fields=['b', 'r', 'p'])], True))
+        specs.append(Spec('struct', False, [dict(kind='named', vname=None, nf=None, fields=['b', 'm', 'l'])]))
+        specs.append(Spec('struct', 'Rn', [dict(kind='tuple', vname=None, nf=None, fields=['r', 'b', 'i'])], True))
         # plain ones (twin #[derive(Debug)])
         specs.append(Spec('struct', None, [dict(kind='named', vname=None, nf=None, fields=['p', 'p'])]))
         specs.append(Spec('struct', None, [dict(kind='tuple', vname=None, nf=None, fields=['p', 'p', 'p'])]))
